@@ -401,6 +401,11 @@ func (c *Ctx) needBytesTheory() {
 		c.axiomsUsed["T-Bytes:"+name] = true
 	}
 	if !c.bv {
+		// b8 clamps an array cell to a byte: the seq8 laws are stated for EVERY array E (also ones that hold
+		// values no byte array of the program can hold), and bat_range says every element of a byte string is a
+		// byte - without the clamp the two contradict each other for such an E (found in session 4 when a
+		// deliberately false theory axiom was "proved"). For cells written by the program b8 is the identity.
+		c.decl("b8", "(define-fun b8 ((v Int)) Int (ite (and (<= 0 v) (<= v 255)) v 0))")
 		ax("cat_len", "(forall ((a Bytes) (b Bytes)) (! (= (blen (bcat a b)) (+ (blen a) (blen b))) :pattern ((bcat a b))))")
 		ax("cat_unit_l", "(forall ((a Bytes)) (! (= (bcat bempty a) a) :pattern ((bcat bempty a))))")
 		ax("cat_unit_r", "(forall ((a Bytes)) (! (= (bcat a bempty) a) :pattern ((bcat a bempty))))")
@@ -415,8 +420,8 @@ func (c *Ctx) needBytesTheory() {
 		ax("sub_split", "(forall ((a Bytes) (i Int) (j Int) (k Int)) (! (=> (and (<= 0 i) (<= i j) (<= j k) (<= k (blen a))) (= (bcat (bsub a i j) (bsub a j k)) (bsub a i k))) :pattern ((bcat (bsub a i j) (bsub a j k)))))")
 		ax("sub_snoc", "(forall ((a Bytes) (i Int) (j Int)) (! (=> (and (<= 0 i) (<= i j) (< j (blen a))) (= (bsub a i (+ j 1)) (bcat (bsub a i j) (bunit (bat a j))))) :pattern ((bsub a i (+ j 1)))))")
 		ax("seq_len", "(forall ((E (Array Ref Int)) (r Ref) (o Int) (n Int)) (! (=> (<= 0 n) (= (blen (seq8 E r o n)) n)) :pattern ((seq8 E r o n))))")
-		ax("seq_unit", "(forall ((E (Array Ref Int)) (r Ref) (o Int)) (! (= (seq8 E r o 1) (bunit (select E (elem r o)))) :pattern ((seq8 E r o 1))))")
-		ax("seq_snoc", "(forall ((E (Array Ref Int)) (r Ref) (o Int) (n Int)) (! (=> (<= 0 n) (= (seq8 E r o (+ n 1)) (bcat (seq8 E r o n) (bunit (select E (elem r (+ o n))))))) :pattern ((seq8 E r o (+ n 1)))))")
+		ax("seq_unit", "(forall ((E (Array Ref Int)) (r Ref) (o Int)) (! (= (seq8 E r o 1) (bunit (b8 (select E (elem r o))))) :pattern ((seq8 E r o 1))))")
+		ax("seq_snoc", "(forall ((E (Array Ref Int)) (r Ref) (o Int) (n Int)) (! (=> (<= 0 n) (= (seq8 E r o (+ n 1)) (bcat (seq8 E r o n) (bunit (b8 (select E (elem r (+ o n)))))))) :pattern ((seq8 E r o (+ n 1)))))")
 		ax("seq_frame", "(forall ((E (Array Ref Int)) (F (Array Ref Int)) (r Ref) (o Int) (n Int)) (! (=> (forall ((k Int)) (=> (and (<= 0 k) (< k n)) (= (select E (elem r (+ o k))) (select F (elem r (+ o k)))))) (= (seq8 E r o n) (seq8 F r o n))) :pattern ((seq8 E r o n) (seq8 F r o n))))")
 		ax("seq_sub", "(forall ((E (Array Ref Int)) (r Ref) (o Int) (n Int) (i Int) (j Int)) (! (=> (and (<= 0 i) (<= i j) (<= j n)) (= (bsub (seq8 E r o n) i j) (seq8 E r (+ o i) (- j i)))) :pattern ((bsub (seq8 E r o n) i j))))")
 		{
@@ -429,7 +434,7 @@ func (c *Ctx) needBytesTheory() {
 				c.strLitUnits(k, c.strLits[k])
 			}
 		}
-		ax("seq_at", "(forall ((E (Array Ref Int)) (r Ref) (o Int) (n Int) (k Int)) (! (=> (and (<= 0 k) (< k n)) (= (bat (seq8 E r o n) k) (select E (elem r (+ o k))))) :pattern ((bat (seq8 E r o n) k))))")
+		ax("seq_at", "(forall ((E (Array Ref Int)) (r Ref) (o Int) (n Int) (k Int)) (! (=> (and (<= 0 k) (< k n)) (= (bat (seq8 E r o n) k) (b8 (select E (elem r (+ o k)))))) :pattern ((bat (seq8 E r o n) k))))")
 	}
 }
 
